@@ -190,7 +190,11 @@ pub fn check_c01(scn: &LoopScn, r: &RunResult, out: &LoopOut) -> Vec<Violation> 
         if l.drop_in.len() > 1 {
             vs.push(v("double_drop", ctx("input dropped more than once")));
         }
-        if !expect_drop_in && !l.drop_in.is_empty() {
+        // A by-value input that a call took is the call's to drop (the
+        // harness forgets it); one that no call ever took — a panic came
+        // first — may be dropped once by the library, or leaked.
+        let never_taken = scn.entry.by_value() && ish.has_drop() && l.begin.is_empty() && panicked;
+        if !expect_drop_in && !l.drop_in.is_empty() && !never_taken {
             vs.push(v(
                 "double_drop",
                 ctx(if scn.entry.by_value() {
@@ -266,9 +270,16 @@ pub fn check_c01(scn: &LoopScn, r: &RunResult, out: &LoopOut) -> Vec<Violation> 
             if s.pre.iter().any(|e| matches!(e.kind, Ev::User(UserEv::CallBegin { .. }))) && s.start.is_some() {
                 vs.push(v("lifecycle_order", format!("{where_}: benchmarked call before the start timestamp")));
             }
-            if s.win.iter().any(|e| {
-                matches!(e.kind, Ev::User(UserEv::DropOutput { .. } | UserEv::DropInput { .. }))
-            }) {
+            // (Once a call of the sample has panicked the timed section is
+            // abandoned — no end timestamp will be taken; what the unwinding
+            // thread drops from then on is not dropped "inside" it. Leaking
+            // instead is equally fine.)
+            if s
+                .win
+                .iter()
+                .take_while(|e| !matches!(e.kind, Ev::User(UserEv::PanicInjected { .. })))
+                .any(|e| matches!(e.kind, Ev::User(UserEv::DropOutput { .. } | UserEv::DropInput { .. })))
+            {
                 vs.push(v("drop_in_timed_section", format!("{where_}: a value was dropped inside the timed section")));
             }
             if s.post.iter().any(|e| matches!(e.kind, Ev::User(UserEv::CallBegin { .. }))) {
